@@ -16,9 +16,9 @@ P = {
  "C04": ("fault_enumeration", "3.C04", "offline trace-specification check over the fake Junos request log, fault position x kind matrix",
   "The complete matrix of fault positions (hello .. close-session, every load index) x fault kinds (rpc-error, warning+ok, missing positive indication, Junos <xnm:error>, not XML, truncated, wrong message-id, close before/after, stall, delayed error, error-then-ok, error-warning-ok) for N in {0,2} (quick) / {0,1,2,3,5} (thorough) is run with the real binary; the request log and exit status are checked against the three clauses of the trace specification.",
   "exit status = what the run reports; pipelined late failures forced by holding replies back."),
- "C05": ("exploration", "3.C05", "controlled scheduler over the real session code (stateless DFS + random walks), Miri as secondary oracle",
+ "C05": ("exploration", "3.C05", "controlled scheduler over the real session code (stateless DFS + random walks) + real-transport pipelining stage; Miri and ThreadSanitizer as secondary oracles",
   "The real Session::rpc / reply futures run over an in-memory transport under a scheduler that owns every poll, delivery, send completion; exhaustive DFS for n<=2 (quick) / n<=3 (thorough), plus 20k / 2M random schedules with bogus (unknown-id, duplicate) replies; every outcome is compared with the tag the server put in the reply of that message-id; stuck sets are detected at quiescence.",
-  "spurious polls are not explored; the scheduler stage delivers whole messages; the real-transport stage (600 / 30k sessions over loopback TLS, SSH and a child process: 1-3 batches of 2-6 pipelined requests answered in a random permutation cut into random units, futures awaited in order, in reverse or as spawned tasks on a 4-thread runtime) covers the transports' own buffering underneath the demultiplexer."),
+  "spurious polls are not explored; the scheduler stage delivers whole messages; the real-transport stage (600 / 30k sessions over loopback TLS, SSH and a child process: 1-3 batches of 2-6 pipelined requests answered in a random permutation cut into random units, futures awaited in order, in reverse or as spawned tasks on a 4-thread runtime) covers the transports' own buffering underneath the demultiplexer; the thorough tier repeats that stage in a ThreadSanitizer build (std included)."),
  "C06": ("exploration", "3.C06", "real loopback TLS/SSH/child-process peers with scripted segmentation; delivery witness from the client's own trace",
   "Every cut position inside every delimiter, cuts around delimiters, k messages per unit, 1-byte dribble, look-alike bodies, 64 KiB bodies and random multi-cuts per transport (thorough: every single cut position); after each unit the peer waits until the client's trace shows the bytes consumed and checks that every complete message was delivered without further traffic.",
   "client trace events report what was read; non-reproducible segmentations are not_exercised, never verdicts."),
@@ -35,7 +35,7 @@ P = {
   "Generated databases (nested/cyclic sets, v4-only/v6-only/no routes, duplicates) x generated expressions; output ranges compared pointwise with the reference on boundary probes; the agent's installed filters likewise.", "fake IRRd fidelity; parenthesised expressions; dependency limits (NOT on long prefixes, cross-family ^n-m) excluded."),
  "C12": ("exploration", "3.C12", "generated server hellos in both arrival orders + framing check over real transports",
   "4k (quick) / 200k hellos (version subsets, session-ids from a fixed list of forms and generated around the 32- and 64-bit boundaries, namespaces, orders) through the real establishment under the scheduler; reported context compared with the hello; a conforming chunked-framing server over TLS/SSH/child process checks usability after negotiation.", "xs:unsignedInt lexical space for session-id."),
- "C13": ("exploration", "3.C13", "metamorphic testing: every single XML-equivalent rewrite at every site + random compositions with delta-debugged signatures",
+ "C13": ("exploration", "3.C13", "metamorphic testing: every single XML-equivalent rewrite at every site + random compositions with delta-debugged signatures; rewrites guarded by an independent infoset comparison",
   "22 accepted base messages (hello, 4 reply types, candidate and installed configurations) x every applicable rewrite x every site, plus 5k (quick) / 1M random compositions.", "rewrites are information-preserving for these grammars; free-text leaves untouched."),
  "C14": ("exploration", "3.C14", "mutation fuzzing of server messages with panic / hang / collateral-failure monitors (release, dev, Miri, ASan builds)",
   "100k (quick) / 10M mutated messages; replies are fed while two other requests are outstanding whose own replies follow; no panic, bounded time (watchdog with witness), at most the affected call fails; when the damaged reply's start tag (message-id) is untouched no other request may fail and its owner must resolve.", "mutation operators of harness/src/parse.rs."),
@@ -45,8 +45,8 @@ P = {
   "20k (quick) / 2M configurations mixing managed, inactive, unannotated, unparseable, marker-not-at-start-of-comment and other-content statements, attribute orders, duplicate xmlns:jcmd, escaped names.", "parseability of an annotation = rpsl grammar."),
  "C17": ("fault_enumeration", "3.C17", "shared-connection vs fresh-connection differential with query-keyed IRR error injection",
   "150 (quick) / 20k sequences of 2-12 expressions on one evaluator with D/E/F injected on arbitrary queries; each result equals the fresh-connection result.", "faults keyed by query text."),
- "C18": ("exploration", "3.C18", "controlled scheduler with drop actions at every suspension point + real-transport partial-message drops, Miri",
-  "As C05 plus drop(task) actions (never polled, waiting for a lock, reader waiting for the transport, reader holding an unparked reply) exhaustively for n<=2/3 (also with 70 kB replies) and randomly (reply sizes 150 B - 300 kB); TLS/SSH/child-process cases drop the reader after a partial message.", "as C05."),
+ "C18": ("exploration", "3.C18", "controlled scheduler with drop actions at every suspension point + real-transport partial-message drops; Miri and ThreadSanitizer as secondary oracles",
+  "As C05 plus drop(task) actions (never polled, waiting for a lock, reader waiting for the transport, reader holding an unparked reply) exhaustively for n<=2/3 (also with 70 kB replies) and randomly (reply sizes 150 B - 300 kB); TLS/SSH/child-process cases drop the reader after a partial message (thorough: also in a ThreadSanitizer build).", "as C05."),
  "C19": ("exploration", "3.C19", "real daemon under an LD_PRELOAD clock-dilation shim; virtual-time monitor of connection timestamps, logged delays, signals",
   "Scripted outcome sequences for periods 300, 90, 60 (slow successful run), 600 and 0 with SIGHUP/SIGTERM/SIGINT during the normal wait and during back-off waits (quick) plus 30/60/100/120/150/1000/3600 (thorough); back-off start, growth, cap, period restoration, SIGHUP/SIGTERM/SIGINT, one-shot.", "virtual time = real x K; jitter > 20 ms makes a run inconclusive."),
  "C20": ("exploration", "3.C20", "complete TRACE capture of the library transports and of the agent binary, multi-encoding secret search",
